@@ -1810,7 +1810,9 @@ def GET_EYE(
     
     try:
         pdf = gaussian_kde(y).evaluate(x)
-        eye_dict["threshold"] = x[np.argmin(pdf)]
+        i_min = np.argmin(pdf)
+        # the valley between the two levels is an interior minimum; a density that only falls or rises over [mu0, mu1] (a handful of samples) has none
+        eye_dict["threshold"] = x[i_min] if 0 < i_min < len(x) - 1 else (mu0 + mu1) / 2
     except:
         eye_dict["threshold"] = None
 
